@@ -557,7 +557,7 @@ class _NearestGridAssigner:
             self.grid_neighbour[self.labels_[-1]].append(i)
 
         for key in self.grid_neighbour:
-            self.grid_neighbour[key] = np.array(self.grid_neighbour[key])
+            self.grid_neighbour[key] = np.array(self.grid_neighbour[key], dtype=int)
 
         return self.labels_
 
